@@ -253,7 +253,9 @@ Record pcfg := {
   c_dead : list Z;      (* never-read local ids all of whose writers are pruned by c_p1 only *)
   c_live : list Z;      (* function ids that live code may call *)
   c_all : bool;         (* every function counts as live (then c_p1 prunes no function c_p2 keeps) *)
-  c_nr : bool           (* never-read entries allowed (then fuel / missing-variable endings of the residual run are excluded) *)
+  c_nr : bool;          (* never-read entries allowed (then fuel / missing-variable endings of the residual run are excluded) *)
+  c_calls : bool;       (* round 5: right-hand sides of dropped never-read stores may call the functions of c_pt *)
+  c_pt : list Z         (* functions whose bodies are pure and trap-free under plan c_p2 (pf_stmts) *)
 }.
 
 Definition only1_stmt (c : pcfg) (sid : option Z) : bool :=
@@ -304,7 +306,8 @@ Definition params_ok (c : pcfg) (ls : Z) (np : nat) : bool :=
 (* what c_p1 may skip although c_p2 executes it, in a live position *)
 Definition pruned_ok (c : pcfg) (t : stmt) : bool :=
   match t with
-  | SMake _ _ (Some d) e | SSet _ _ (Some d) e => c_nr c && memz d (c_dead c) && pure_total e
+  | SMake _ _ (Some d) e | SSet _ _ (Some d) e =>
+      c_nr c && memz d (c_dead c) && (if c_calls c then pfe (c_pt c) e else pure_total e)
   | _ => false
   end.
 
@@ -330,7 +333,8 @@ Definition block_ok_with (sok : stmt -> bool) (c : pcfg) : bool -> list stmt -> 
 Fixpoint stmt_ok (c : pcfg) (t : stmt) {struct t} : bool :=
   match t with
   | SFun _ _ ps body fid ls _ =>
-      if fn_live c fid then block_ok_with (stmt_ok c) c true body && params_ok c ls (length ps) else true
+      (if c_calls c then pf_fun (c_p2 c) (c_pt c) fid ls ps body else true) &&
+      (if fn_live c fid then block_ok_with (stmt_ok c) c true body && params_ok c ls (length ps) else true)
   | SMake _ _ l e => var_ok c l && expr_ok c e
   | SSet _ _ l e => var_ok c l && expr_ok c e
   | SSetIdx _ tg e => expr_ok c tg && expr_ok c e
@@ -360,15 +364,15 @@ Definition covered_ok (c : pcfg) (prog : list stmt) : bool :=
 
 (* ---------- the configurations of the three class theorems ---------- *)
 Definition ucfg (ss : list Z) : pcfg :=
-  {| c_p1 := Some (ss, []); c_p2 := None; c_dead := []; c_live := []; c_all := true; c_nr := false |}.
+  {| c_p1 := Some (ss, []); c_p2 := None; c_dead := []; c_live := []; c_all := true; c_nr := false; c_calls := false; c_pt := [] |}.
 
 Definition fcfg (fs live : list Z) : pcfg :=
-  {| c_p1 := Some ([], fs); c_p2 := None; c_dead := []; c_live := live; c_all := false; c_nr := false |}.
+  {| c_p1 := Some ([], fs); c_p2 := None; c_dead := []; c_live := live; c_all := false; c_nr := false; c_calls := false; c_pt := [] |}.
 (* `live` is closed under calls from live code and contains none of fs *)
 Definition unused_fns_ok (prog : list stmt) (fs live : list Z) : bool := covered_ok (fcfg fs live) prog.
 
 Definition ncfg (ss dead : list Z) : pcfg :=
-  {| c_p1 := Some (ss, []); c_p2 := None; c_dead := dead; c_live := []; c_all := true; c_nr := true |}.
+  {| c_p1 := Some (ss, []); c_p2 := None; c_dead := dead; c_live := []; c_all := true; c_nr := true; c_calls := false; c_pt := [] |}.
 Definition never_read_ok (prog : list stmt) (ss dead : list Z) : bool := covered_ok (ncfg ss dead) prog.
 
 (* endings of the residual run that are excluded when never-read entries are dropped:
@@ -561,13 +565,13 @@ Definition mk_pt (P : plan) (prog : list stmt) : list Z :=
   let fd := fun_defs prog in
   pt_iter (S (length fd)) P fd (nodup Z.eq_dec (map fst fd)).
 
-Definition dead_ids_live (prog : list stmt) (ss : list Z) : list Z :=
+Definition dead_ids_live_gen (ok : expr -> bool) (prog : list stmt) (ss : list Z) : list Z :=
   let sts := lstmts_block (live_fns prog) true prog in
   let reads := flat_map (fun t => flat_map expr_vars (stmt_exprs t)) sts in
   let params := all_param_ids prog in
   let bad := flat_map (fun t => match writer_of t with
                                 | Some (d, e) =>
-                                    if in_plan_stmt (Some (ss, [])) (stmt_sid t) && pure_total e
+                                    if in_plan_stmt (Some (ss, [])) (stmt_sid t) && ok e
                                     then [] else [d]
                                 | None => []
                                 end) sts in
@@ -576,6 +580,8 @@ Definition dead_ids_live (prog : list stmt) (ss : list Z) : list Z :=
                         (all_stmts_block prog) in
   nodup Z.eq_dec
     (filter (fun d => negb (memz d bad) && negb (memz d reads) && negb (memz d params)) cands).
+
+Definition dead_ids_live := dead_ids_live_gen pure_total.
 
 (* ---------- classification of the entries of a real plan ---------- *)
 Inductive pclass :=
@@ -648,7 +654,7 @@ Record verdict := {
                                prune_sound_partial_residual holds for this program and plan *)
 }.
 
-Definition plan_ok_with (dead : list Z) (prog : list stmt) (ss fs : list Z) : verdict :=
+Definition plan_ok_gen (calls : bool) (pt : list Z) (dead : list Z) (prog : list stmt) (ss fs : list Z) : verdict :=
   let reads := read_ids prog in
   let live := live_fns prog in
   let cs := map (fun i => (i, classify_stmt prog dead reads ss i)) ss in
@@ -656,15 +662,27 @@ Definition plan_ok_with (dead : list Z) (prog : list stmt) (ss fs : list Z) : ve
   let ss2 := flat_map (fun ic => if covered_class (snd ic) then [] else [fst ic]) cs in
   let fs2 := filter (fun f => memz f live) fs in
   let c := {| c_p1 := Some (ss, fs); c_p2 := Some (ss2, fs2); c_dead := dead; c_live := live;
-              c_all := false; c_nr := true |} in
+              c_all := false; c_nr := true; c_calls := calls; c_pt := pt |} in
   {| v_stmt := cs; v_fn := cf; v_residual := (ss2, fs2); v_dead := dead; v_live := live;
      v_checked := covered_ok c prog |}.
+Definition plan_ok_with (dead : list Z) := plan_ok_gen false [] dead.
 
 (* the dead set is a hint: whatever it is, v_checked decides.  First the set that ignores
    code no run can reach; should the verified check refuse it, the plain one. *)
 Definition plan_ok (prog : list stmt) (ss fs : list Z) : verdict :=
   let v := plan_ok_with (nodup Z.eq_dec (dead_ids prog ss ++ dead_ids_live prog ss)) prog ss fs in
   if v_checked v then v else plan_ok_with (dead_ids prog ss) prog ss fs.
+
+(* round 5: never-read stores whose right-hand side calls pure, trap-free user functions.  The
+   table depends on the residual plan (statements it skips inside a callee), the residual on
+   the table: two rounds, then v_checked decides; otherwise fall back. *)
+Definition plan_ok_x (prog : list stmt) (ss fs : list Z) : verdict :=
+  let v0 := plan_ok prog ss fs in
+  let pt1 := mk_pt (Some (v_residual v0)) prog in
+  let v1 := plan_ok_gen true pt1 (dead_ids_live_gen (pfe pt1) prog ss) prog ss fs in
+  let pt2 := mk_pt (Some (v_residual v1)) prog in
+  let v2 := plan_ok_gen true pt2 (dead_ids_live_gen (pfe pt2) prog ss) prog ss fs in
+  if v_checked v2 then v2 else if v_checked v1 then v1 else v0.
 
 (* ---------- never-read locals whose declaration the analysis keeps ----------
    The analysis keeps `make u get e` when a later statement still mentions u, even if that
@@ -700,5 +718,5 @@ Definition plan_ok2 (prog : list stmt) (ss fs : list Z) : verdict2 :=
   let extra := nodup Z.eq_dec (filter (fun i => negb (memz i ss)) (writer_sids prog d2)) in
   let ss' := ss ++ extra in
   let ca := {| c_p1 := Some (ss', fs); c_p2 := Some (ss, fs); c_dead := d2; c_live := [];
-               c_all := true; c_nr := true |} in
+               c_all := true; c_nr := true; c_calls := false; c_pt := [] |} in
   {| w_aug := extra; w_main := plan_ok prog ss' fs; w_checked_aug := covered_ok ca prog |}.
